@@ -193,6 +193,22 @@ CHECKS["C08"] = dict(
     note="Trusted: TLC; transcription of ISO/IEC 16022 in spec/DMTables.tla and DMPlacement.tla (self-checked by MC_DM; GF(256) tables are literals "
          "proved against the shift-and-xor definition). Data codewords are taken from EncodeHighLevel (their correctness is C02).",
     technique="TLA+ reference construction (ISO 16022 Table 7, RS parity, Annex F placement, finder) + TLC trace validation of writer / ECC / placement / tables")
+CHECKS["C02"] = dict(
+    category="model_checking",
+    text="Every recorded EncodeHighLevel call is judged by TLC through the ISO/IEC 16022 reference DECODER of spec/DMHL.tla (ASCII, C40, Text, "
+         "X12, EDIFACT bit cursor, Base 256 with 255-state un-randomising, upper shift, macro 05/06, 253-state pads): whatever encodation the "
+         "library chose, its codewords must decode to exactly the text, padding must follow the rule, the symbol must be the smallest "
+         "admissible one for the codewords used, the call must return (recover + watchdog), and a refusal is accepted only if the text is not "
+         "Latin-1 or not even its plain ASCII encodation fits the largest admissible symbol. The real codeword decoder and the writer -> "
+         "pure-barcode reader path must return the text too. Inputs: ALL strings up to length 3 (thorough 5) over 11 character classes, all "
+         "strings up to length 6 (8) over four 4-5 class families aimed at the end-of-data logic of each mode, capacity fillers for all 30 sizes, "
+         "seeded long texts with shape / size hints, macro envelopes, non-Latin-1 texts. MC_DM proves the symbol table laws used by the judgement.",
+    design_ref="DESIGN.md section 6 C02",
+    note="Trusted: TLC; the reference decoder in DMHL.tla and DMTables.tla; Go's string conversion for the UTF-8 form of a Latin-1 text. 'Fits' is the "
+         "sufficient condition 'plain ASCII encodation fits'. A final unlatch codeword in the last position is tolerated as readers do. The encoder "
+         "state machine itself is not yet model-checked (planned: DESIGN.md C02 MC); termination is observed per call. Known finding "
+         "C02-x12-illegal-character-mid-triplet is open.",
+    technique="TLA+ reference decoder (ISO 16022 5.2) + symbol-selection spec; TLC trace validation of exhaustive class-string and seeded encode/decode/read calls")
 
 NOT_YET = {
 }
